@@ -108,6 +108,56 @@ class State:
         self.pc.append(cond)
 
 
+_sym_cache = {}
+
+
+def _symbols(e):
+    """names of the uninterpreted constants/functions of a formula"""
+    k = e.get_id()
+    if k in _sym_cache:
+        return _sym_cache[k]
+    out = set()
+    stack, seen = [e], set()
+    while stack:
+        x = stack.pop()
+        if x.get_id() in seen:
+            continue
+        seen.add(x.get_id())
+        if z3.is_quantifier(x):
+            stack.append(x.body())
+        elif z3.is_app(x):
+            if x.decl().kind() == z3.Z3_OP_UNINTERPRETED:
+                out.add(x.decl().name())
+            stack.extend(x.children())
+    if len(_sym_cache) > 20000:
+        _sym_cache.clear()
+    _sym_cache[k] = out
+    return out
+
+
+_q_cache = {}
+
+
+def _has_quant(e):
+    k = e.get_id()
+    if k not in _q_cache:
+        if len(_q_cache) > 20000:
+            _q_cache.clear()
+        r = False
+        stack, seen = [e], set()
+        while stack and not r:
+            x = stack.pop()
+            if x.get_id() in seen:
+                continue
+            seen.add(x.get_id())
+            if z3.is_quantifier(x):
+                r = True
+            elif z3.is_app(x):
+                stack.extend(x.children())
+        _q_cache[k] = r
+    return _q_cache[k]
+
+
 class Decider:
     """Depth-first enumeration of the decision tree, one path per run."""
 
@@ -116,6 +166,7 @@ class Decider:
         self.todo = []
         self.trace = []
         self.timeout_ms = timeout_ms
+        self.rlimit = 400000
         self.npaths = 0
         self.solver_calls = 0
 
@@ -124,6 +175,22 @@ class Decider:
         self.trace = []
         reset_names()
         self.npaths += 1
+
+    def quick_unsat(self, pc, c):
+        """stage 1: only the path-condition conjuncts that share a symbol
+        with the condition (unsat of a subset implies unsat of the whole);
+        decides the common null / range / type tests fast."""
+        syms = _symbols(c)
+        sub = [p for p in pc if _symbols(p) & syms and not _has_quant(p)]
+        if not sub:
+            return False
+        s = z3.Solver()
+        s.set("rlimit", 100000)
+        for p in sub:
+            s.add(p)
+        s.add(c)
+        self.solver_calls += 1
+        return s.check() == z3.unsat
 
     def feasible(self, pc, cond):
         c = z3.simplify(cond)
@@ -136,7 +203,7 @@ class Decider:
         # honoured on quantified goals (a stuck check would hang the run);
         # 'unknown' keeps the branch, which is sound.  No wall-clock timeout
         # here, so the set of explored paths does not depend on machine load.
-        s.set("rlimit", 400000)
+        s.set("rlimit", self.rlimit)
         for p in pc:
             s.add(p)
         s.add(c)
@@ -154,17 +221,20 @@ class Decider:
         if pos < len(self.prefix):
             choice = self.prefix[pos]
         else:
-            t_ok = self.feasible(st.pc, c)
-            f_ok = self.feasible(st.pc, z3.Not(c))
-            if t_ok and f_ok:
+            # the current path condition is taken to be satisfiable, so a
+            # side that is refuted leaves the other one as the only choice
+            nc = z3.Not(c)
+            if self.quick_unsat(st.pc, c):
+                choice = False
+            elif self.quick_unsat(st.pc, nc):
+                choice = True
+            elif not self.feasible(st.pc, c):
+                choice = False
+            elif not self.feasible(st.pc, nc):
+                choice = True
+            else:
                 choice = True
                 self.todo.append(self.trace + [False])
-            elif t_ok:
-                choice = True
-            elif f_ok:
-                choice = False
-            else:
-                raise PathEnd()
         self.trace.append(choice)
         st.pc.append(c if choice else z3.Not(c))
         return choice
